@@ -28,11 +28,17 @@ EXTENDS ResultViews, Json
 CONSTANTS
     MaxLen,       \* longest read sequence
     Mode,         \* "reapply" | "stale"
+    RawNorm,      \* "copy" | "inplace": does per-segment normalisation of the state-only view work on copies, or
+                  \* does it divide the result's STORED state frames (a plausible wrong implementation: must be refuted)
     ResultIds,    \* which results of the menu
     EmitOn
 
-VARIABLES rid, tabs, mp, cache, hist, answers
-vars == <<rid, tabs, mp, cache, hist, answers>>
+VARIABLES rid, tabs, mp, cache, hist, answers, rawdiv, taint
+vars == <<rid, tabs, mp, cache, hist, answers, rawdiv, taint>>
+\* rawdiv[i] : what the stored state frame of segment i has been divided by so far (1 = untouched: "reading never
+\*             changes the result");  taint[i] : rawdiv[i] at the moment the argument table was filled (values
+\*             computed from divided states are REPRESENTED by that divisor on the row -- only the wrong instance
+\*             ever has a divisor other than 1, and the code is never judged against it)
 \* tabs = SpecTables(Res): a function of rid, kept in the state only so that it is computed once per result
 
 Row(t, x, y) == [t |-> t, y |-> ("x" :> x) @@ ("y" :> y)]
@@ -138,6 +144,9 @@ IdOf(view, flags, v, scaled, norm, concat) ==
 \* the interaction alphabet of the longer sequences
 Reduced == {
     IdOf("variables", {}, "x", FALSE, "none", TRUE),
+    IdOf("variables", {}, "x", FALSE, "seg", TRUE),
+    IdOf("variables", {}, "x", FALSE, "row", FALSE),
+    IdOf("variables", {}, "x", FALSE, "scalar", TRUE),
     IdOf("variables", {"dvar", "svar", "ro"}, "x", FALSE, "row", TRUE),
     IdOf("fluxes", {"sflux"}, "x", FALSE, "seg", FALSE),
     IdOf("args", Groups, "x", FALSE, "none", TRUE),
@@ -166,20 +175,33 @@ ParSrc(m) == [i \in 1..NSeg(Res) |-> IF Mode = "reapply" THEN Merge(m, Res.segs[
 \* tables good enough for the reads that do not touch the cache (raw variables, new_y0)
 RawTabs == [i \in 1..NSeg(Res) |-> [j \in 1..NRows(Res, i) |-> Res.segs[i].rows[j].y]]
 
-ImplRead(o, m, ch) ==
+Ones == [i \in 1..NSeg(Res) |-> 1]
+SegOfRow(k) == CHOOSE i \in 1..NSeg(Res) : Offset(Res, i) < k /\ k <= Offset(Res, i) + NRows(Res, i)
+\* attach the divisors dv (one per segment) to the rows of an answer
+Divide(op, ans, dv) ==
+    IF op.view = "newy0" THEN <<<<[ans[1][1] EXCEPT !.d = @ * dv[NSeg(Res)]]>>>>
+    ELSE IF op.concat THEN <<[k \in DOMAIN ans[1] |-> [ans[1][k] EXCEPT !.d = @ * dv[SegOfRow(k)]]]>>
+    ELSE [i \in DOMAIN ans |-> [j \in DOMAIN ans[i] |-> [ans[i][j] EXCEPT !.d = @ * dv[i]]]]
+
+ImplRead(o, m, ch, rd, tn) ==
     LET op == Canon(o)
     IN IF ~UsesCache(op)
-       THEN [ans |-> ViewG(C, op, Res, ParSrc(m), RawTabs), mp |-> m, cache |-> ch]
+       THEN [ans |-> Divide(op, ViewG(C, op, Res, ParSrc(m), RawTabs), rd), mp |-> m, cache |-> ch, taint |-> tn,
+             rawdiv |-> IF RawNorm = "inplace" /\ op.view = "variables" /\ op.norm = "seg"
+                        THEN [i \in 1..NSeg(Res) |-> rd[i] * Res.fseg[i]] ELSE rd]
        ELSE LET ch2 == IF ch = <<>> THEN Tables(C, Res, ParSrc(m)) ELSE ch
-            IN [ans |-> ViewG(C, op, Res, ParSrc(m), ch2),
+                tn2 == IF ch = <<>> THEN rd ELSE tn
+            IN [ans |-> Divide(op, ViewG(C, op, Res, ParSrc(m), ch2), tn2),
                 mp |-> IF Mode = "reapply" THEN Merge(m, LastPars) ELSE m,
-                cache |-> ch2]
+                cache |-> ch2, taint |-> tn2, rawdiv |-> rd]
 
 Init ==
     /\ rid \in ResultIds
     /\ tabs = SpecTables(Results[rid])
     /\ mp = InitPars
     /\ cache = <<>>
+    /\ rawdiv = [i \in 1..NSeg(Results[rid]) |-> 1]
+    /\ taint = [i \in 1..NSeg(Results[rid]) |-> 1]
     /\ hist = <<>>
     /\ answers = <<>>
 
@@ -188,8 +210,8 @@ Alphabet == IF hist = <<>> THEN 1..NOps
 
 Read(k) ==
     /\ IsRead(Ops[k])
-    /\ LET r == ImplRead(Ops[k], mp, cache)
-       IN /\ mp' = r.mp /\ cache' = r.cache
+    /\ LET r == ImplRead(Ops[k], mp, cache, rawdiv, taint)
+       IN /\ mp' = r.mp /\ cache' = r.cache /\ rawdiv' = r.rawdiv /\ taint' = r.taint
           /\ answers' = Append(answers, r.ans)
     /\ hist' = Append(hist, k)
     /\ UNCHANGED <<rid, tabs>>
@@ -199,7 +221,7 @@ UpdateParameter(k) ==
     /\ mp' = [mp EXCEPT ![Ops[k].v] = Ops[k].val]
     /\ hist' = Append(hist, k)
     /\ answers' = Append(answers, <<>>)
-    /\ UNCHANGED <<rid, tabs, cache>>
+    /\ UNCHANGED <<rid, tabs, cache, rawdiv, taint>>
 
 Next == /\ Len(hist) < MaxLen
         /\ \E k \in Alphabet : Read(k) \/ UpdateParameter(k)
@@ -220,7 +242,10 @@ HistoryFree ==
 \* asking any earlier read again NOW gives the answer it gave THEN (idempotence, commutation with
 \* everything that happened in between, including the parameter updates)
 Repeatable ==
-    \A k \in DOMAIN hist : IsRead(Ops[hist[k]]) => ImplRead(Ops[hist[k]], mp, cache).ans = answers[k]
+    \A k \in DOMAIN hist : IsRead(Ops[hist[k]]) => ImplRead(Ops[hist[k]], mp, cache, rawdiv, taint).ans = answers[k]
+
+\* reading never changes the result: the stored state frames are what the simulation left
+ResultUnchanged == rawdiv = Ones
 
 Theorems ==
     hist = <<>> =>
